@@ -98,9 +98,13 @@ def main():
             pids = [p for p in m["props"] if not only or p in only]
             pids = [p for p in pids if os.path.exists(os.path.join(ROOT, "props", p.lower() + ".py"))]
             if pids:
-                results += run(m, pids, a.tier, a.examples, seed=a.seed)
+                try:
+                    results += run(m, pids, a.tier, a.examples, seed=a.seed)
+                except SystemExit as exc:           # the pattern of a catalogue entry no longer applies to /repo
+                    print("NOT-APPLICABLE %s" % exc)
+                    sys.stdout.flush()
         missed = [r for r in results if r[2] != "CAUGHT"]
-        print("total %d, not caught %d" % (len(results), len(missed)))
+        print("total %d, not caught %d: %s" % (len(results), len(missed), [(r[0], r[1]) for r in missed]))
         return
     m = table[a.mutant]
     run(m, a.pids or m["props"], a.tier, a.examples, a.keep, seed=a.seed)
